@@ -1118,12 +1118,20 @@ def strip(case):
     return {k: v for k, v in case.items() if k != 'origin'}
 
 
-def process_batch(batch):
+def process_batch(arg):
+    import time
+    deadline, shrink_budget, batch = arg
     st = WorkerStats()
     work = common.scratch_dir('c13')
     shrunk = 0
     found_shrunk, found_raw = [], []
-    for r in evaluate([strip(c) for c in batch], work):
+    results = []
+    for k in range(0, len(batch), 8):
+        if time.time() > deadline:
+            st.count('left-out-for-time', len(batch) - k)
+            break
+        results += evaluate([strip(c) for c in batch[k:k + 8]], work)
+    for r in results:
         case = r['case']
         st.case({'case': render(case)}, nontrivial(r))
         st.traces += sum(1 for op in case['ops'] if op[0] in ('run', 'forget', 'ignore', 'reset'))
@@ -1147,11 +1155,11 @@ def process_batch(batch):
             st.count(k, v)
         if r['viol'] or r['div']:
             did = False
-            if shrunk < 2:
+            if shrunk < 1 and time.time() < deadline + 20:
                 shrunk += 1
                 did = True
                 try:
-                    small, r2 = shrink(case, work, budget=50)
+                    small, r2 = shrink(case, work, budget=shrink_budget)
                 except Exception:  # noqa
                     small, r2 = case, r
             else:
@@ -1208,9 +1216,11 @@ def run(ctx):
         ctx.extra['exhaustive_small_scope'] = {'task_sets': len(SMALL_SETS), 'alphabet': len(SMALL_CMDS),
                                                'max_len': 2, 'cases': len(ex), 'note': 'length 3 sampled'}
     cases += ex
+    import time
     size = max(8, len(cases) // (common.NCPU * 4))
-    # corpus first, in its own batches
-    batches = [cases[i:i + size] for i in range(0, len(cases), size)]
+    deadline = time.time() + max(10, ctx.time_left())
+    # corpus first: batches are taken in order
+    batches = [(deadline, 60 if quick else 150, cases[i:i + size]) for i in range(0, len(cases), size)]
     procs = min(common.NCPU, 8)
     for st in common.pmap(process_batch, batches, procs=procs):
         st.merge_into(ctx)
